@@ -144,6 +144,39 @@ class Harness:
 
 
 # ---------------------------------------------------------------- worker
+def _worker_init(kinds):
+    import threading
+    threading.stack_size(512 * 1024 * 1024)
+    sys.setrecursionlimit(200000)
+    for k in kinds:
+        funcs(k)
+
+
+def _run_in_big_thread(fn, arg):
+    import threading
+    box = {}
+
+    def target():
+        try:
+            box['r'] = fn(arg)
+        except BaseException as e:      # noqa
+            box['e'] = e
+    t = threading.Thread(target=target)
+    t.start()
+    t.join()
+    if 'e' in box:
+        raise box['e']
+    return box['r']
+
+
+def run_case(args):
+    """pool entry: deep MIR recursion needs a big stack, which only a new thread can have"""
+    import threading
+    if threading.current_thread() is threading.main_thread():
+        return _run_in_big_thread(_run_case, args)
+    return _run_case(args)
+
+
 def _mk_engine(h, tier):
     fs, key, roots = funcs(h.with_clvmr)
     eng = Engine(fs, roots, bigw=h.bigw[tier], loop_bound=h.loop_bound,
@@ -151,7 +184,7 @@ def _mk_engine(h, tier):
     return eng
 
 
-def run_case(args):
+def _run_case(args):
     """explore one (harness, case); returns a JSON-able summary"""
     h, case, tier, findings, deadline = args
     t0 = time.time()
@@ -173,7 +206,7 @@ def run_case(args):
         def body(e):
             return h.run(e, case, inp)
         chk = z3.Solver()
-        chk.set('timeout', 20000 if tier == 'quick' else 120000)
+        chk.set('rlimit', (20000 if tier == 'quick' else 120000) * 4000)
         seen_known = set()
         witnessed = set()
         for kind, pc, out, dec, span in eng.explore(body, max_paths=h.max_paths, deadline=deadline):
@@ -363,8 +396,10 @@ def run_check(prop, harnesses, tier, seed, level_text='', jobs=None, time_cap=No
     rnd.shuffle(tasks)
     jobs = jobs or min(16, max(1, len(tasks)))
     if jobs > 1 and len(tasks) > 1:
-        ctx = multiprocessing.get_context('fork')
-        with ctx.Pool(jobs) as pool:
+        # 'spawn', not 'fork': with forked workers half of the CPU time went to the kernel (copy-on-write faults on
+        # the shared parsed-MIR heap, contended between 16 processes); each spawned worker parses the dump itself (~2 s)
+        ctx = multiprocessing.get_context('spawn')
+        with ctx.Pool(jobs, initializer=_worker_init, initargs=(sorted({bool(h.with_clvmr) for h in harnesses}),)) as pool:
             results = pool.map(run_case, tasks, chunksize=1)
     else:
         results = [run_case(t) for t in tasks]
